@@ -299,6 +299,15 @@ func (fr *Frame) applyContract(v ssa.Value, ct *Contract, name string, c *ssa.Ca
 				}
 				e2.vars["arg_"+k] = val // the callee's parameter, also when the caller has a variable of the same name
 			}
+			// a parameter of the callee that was renamed since the clause was written is still known by its recorded name
+			for oldName, cur := range g.renames[name] {
+				if val, ok := env.vars[cur]; ok {
+					if _, clash := e2.vars[oldName]; !clash {
+						e2.vars[oldName] = val
+					}
+					e2.vars["arg_"+oldName] = val
+				}
+			}
 			e2.resolve = func(nm string) (*Term, bool) { return atf.resolveAt(nm, atin, st) }
 			e2.resolveAddr = atf.allocRef
 			t, err := e2.Parse(ac.Expr)
